@@ -97,8 +97,11 @@ def main(chk):
     evaluations = 0
     nontrivial = set()
     per_coll = {}
+    primary = ("InstrumentedList", "InstrumentedSet", "attribute_keyed_dict", "ObjList(@collection)")
     for name, (kind, cls) in cc.items():
-        for backref in (False, True):
+        # quick: the user subclasses and the other keyed-dict factories share the wrappers of the primary flavours and run without a
+        # backref only; thorough runs every flavour both ways
+        for backref in (False, True) if (name in primary or not q) else (False,):
             fx = po.Fixture(name, kind, cls, backref=backref)
             n = 0
             for i, case in enumerate(by_kind[kind]):
